@@ -6,3 +6,11 @@ mkdir -p $DST
 for f in patch.diff meta.json pytest.ini conftest.py; do [ -f $SRC/$f ] && cp $SRC/$f $DST/; done
 cp $SRC/test_demo*.py $DST/ 2>/dev/null
 ls $DST | tr '\n' ' '; echo
+# demos that pin the scratch worktree path they were written in: make the check follow the current directory
+# (seedcheck.sh runs them with cwd = its own scratch worktree); the original is kept as test_demo.py.orig
+for f in $DST/test_demo*.py; do
+  if grep -q '"/tmp/wt[0-9]*-C[0-9]*/"' $f; then
+    cp $f $f.orig
+    sed -i -E 's#"/tmp/wt[0-9]*-C[0-9]+/"#(__import__("os").getcwd() + "/")#g' $f
+  fi
+done
